@@ -22,7 +22,7 @@ ENCODES = ["pycel.excelcompiler:ExcelCompiler._evaluate_iterative", "pycel.excel
 BOUNDS = ["acyclic: templates chain, sumrange, rangeform, nested, cse with cycles enabled; configurations no-data and stored results; "
           "histories of 1..2 writes (cells loaded first or inputs only), values {number, logical, blank}, ints |v|<=99",
           "circular: 2-cell cycle (||A||inf = 1/2) and 3-cell cycle through a SUM range (||A||inf = 1/2); b symbolic int |b|<=99, "
-          "iterations symbolic 1..5 (1..2 in the variant with a set_value of b followed by a second evaluate), tolerance symbolic real 0.01..50",
+          "iterations symbolic 1..5 (1..7 and tolerance down to 1e-9 for the fast contraction, where a relative closeness test would stand in for the tolerance; 1..2 in the variant with a set_value of b followed by a second evaluate), tolerance symbolic real 0.01..50",
           "floats as exact reals: the rounding error of binary64 against the tolerance is not part of the claim"]
 ASSUMPTIONS = ["floats as exact reals"]
 
@@ -76,10 +76,10 @@ def _absdiff(a, b):
     return a - b if a >= b else b - a
 
 
-def ob_cycle(tname, set_again, b: int, it: int, tol: float, b2: int, tol_lo=0.01) -> Optional[bool]:
+def ob_cycle(tname, set_again, b: int, it: int, tol: float, b2: int, tol_lo=0.01, it_max=5) -> Optional[bool]:
     """passes <= iterations; stopping early means no cycle cell moved by more than the tolerance in the last pass, and
     then B1 is within q/(1-q) * tolerance of the fixed point of the (contracting, linear) system"""
-    if not (-99 <= b <= 99 and -99 <= b2 <= 99 and 1 <= it <= (2 if set_again else 5) and tol_lo <= tol <= 50):
+    if not (-99 <= b <= 99 and -99 <= b2 <= 99 and 1 <= it <= (2 if set_again else it_max) and tol_lo <= tol <= 50):
         return None
     cyc_cells, (qn, qd), (fn, fd) = CYCLES[tname]
     with wb.notrace():
@@ -123,7 +123,7 @@ def ob_cycle(tname, set_again, b: int, it: int, tol: float, b2: int, tol_lo=0.01
 
 def ob_cycle_fast(b: int, it: int, tol: float) -> Optional[bool]:
     """fast contraction, large values against a tiny tolerance (relative closeness must not stand in for the tolerance)"""
-    return ob_cycle("cycfast", False, b, it, tol, 0, tol_lo=0.0000001)
+    return ob_cycle("cycfast", False, b, it, tol, 0, tol_lo=0.000000001, it_max=7)
 
 
 def ob_defaults(b: int, it1: int, tol1: float) -> Optional[bool]:
